@@ -81,6 +81,8 @@ type host struct {
 	rtr     router.Router
 	rawAddr string
 	wsAddr  string
+	rawLim  map[int]string // RecvLimit -> address of the rawsocket server configured with it
+	wsSmall string         // websocket server with a small outbound queue
 	priv    ed25519.PrivateKey
 }
 
@@ -191,8 +193,31 @@ func startHost(logw io.Writer, variant int) (*host, error) {
 		return nil, err
 	}
 	h.wsAddr = wc.(net.Listener).Addr().String()
+	// servers with receive limits below the protocol maximum and small
+	// outbound queues (the embedding application's choice, not the client's)
+	h.rawLim = map[int]string{0: h.rawAddr}
+	for _, lim := range rawLimits[1:] {
+		s := router.NewRawSocketServer(r)
+		s.RecvLimit, s.OutQueueSize = lim, 4
+		c, err := s.ListenAndServe("tcp", "127.0.0.1:0")
+		if err != nil {
+			return nil, err
+		}
+		h.rawLim[lim] = c.(net.Listener).Addr().String()
+	}
+	ws2 := router.NewWebsocketServer(r)
+	ws2.OutQueueSize = 2
+	wc2, err := ws2.ListenAndServe("127.0.0.1:0")
+	if err != nil {
+		return nil, err
+	}
+	h.wsSmall = wc2.(net.Listener).Addr().String()
 	return h, nil
 }
+
+// rawLimits: RawSocketServer.RecvLimit of the servers every router
+// configuration runs (0 = protocol maximum, 16M).
+var rawLimits = []int{0, 512, 1000, 65536}
 
 // ---------------------------------------------------------------- sessions
 
@@ -422,11 +447,15 @@ func (w *worker) open(s *sess) error {
 	var err error
 	switch s.spec.Transport {
 	case "raw":
-		lk, err = dialRaw(w.h.rawAddr, s.spec.Ser, false)
+		lk, err = dialRaw(w.rawAddrFor(s.spec.Limit), s.spec.Ser, false)
 	case "rawnohs":
-		lk, err = dialRaw(w.h.rawAddr, s.spec.Ser, true)
+		lk, err = dialRaw(w.rawAddrFor(s.spec.Limit), s.spec.Ser, true)
 	case "ws":
-		lk, err = dialWS(w.h.wsAddr, s.spec.Ser, "")
+		addr := w.h.wsAddr
+		if s.spec.Limit != 0 {
+			addr = w.h.wsSmall
+		}
+		lk, err = dialWS(addr, s.spec.Ser, "")
 	default:
 		lk = newLocalLink(w.h.rtr)
 	}
@@ -772,6 +801,13 @@ func (w *worker) runHistory(h *History) runStats {
 		s.mu.Unlock()
 	}
 	return st
+}
+
+func (w *worker) rawAddrFor(limit int) string {
+	if a, ok := w.h.rawLim[limit]; ok {
+		return a
+	}
+	return w.h.rawAddr
 }
 
 // useConfig switches the worker to the router of the given configuration
